@@ -2,6 +2,7 @@
 //! `--features verif`) in-process and prints canonical lines that `/verif/check` diffs against the Lean
 //! model driver, or evaluates a property directly on the implementation (search).
 mod c04;
+mod c05;
 mod c18;
 mod gen;
 mod runner;
@@ -17,6 +18,7 @@ fn main() {
         "tables" => util::dump_tables(rest),
         "c04-ops" => c04::ops(rest),
         "c04-spec" => c04::spec(rest),
+        "c05-spec" => c05::spec(rest),
         "runner" => runner::main(rest),
         "gen-stats" => runner::gen_stats(rest),
         _ => { eprintln!("unknown command {cmd:?}"); 2 }
